@@ -1,8 +1,521 @@
 /-
-C12 — property theorems (under construction; see DESIGN.md section 8).
+C12 — sender side of acknowledged requests, client role.
+
+Property theorems only (helper lemmas: `Proofs/Client*.lean`).  Model:
+`Model/Client.lean` (code-shaped, tied to `service.Client` by the scripted-peer
+correspondence runs); specification: `Spec/Client.lean`.  The recorded
+deviations of the code (E5 ack-before-registration, the single ping slot, E9,
+the A2 identifier wrap) are kept out of the `…_partial` statements by explicit
+hypotheses and proved as closed `…_counterexample`s on the model.
 -/
-import Mqtt.Model.Client
-import Mqtt.Spec.Client
+import Mqtt.Proofs.ClientRefine
+
+set_option linter.unusedSimpArgs false
 
 namespace Mqtt.Properties.C12
+open Mqtt.Iface.Broker (Pub Packet Bytes)
+open Mqtt.Iface.Client
+open Mqtt.Model.Client
+open Mqtt.Proofs.Client
+
+/-! ## (a) every PUBREC is answered by a PUBREL with the same identifier -/
+
+/-- For every state of a connected client - whatever its queues hold, whether or
+not a QoS 2 publish with that identifier is in flight - a PUBREC from the peer
+makes the client write exactly one packet, the PUBREL with the same
+identifier; nothing completes and nothing but the QoS 2 send queue changes. -/
+theorem C12_pubrec_pubrel (c : C) (hc : c.connected = true) (id : Nat) :
+    (step c (.peer (.pubrec id))).2 = [.wrote (.pubrel id)] ∧
+    (peer c (.pubrec id)).2 = [.wrote (.pubrel id)] ∧
+    (step c (.peer (.pubrec id))).1 =
+      { c with pub2out := c.pub2out.ack Mqtt.Generated.tPUBREC id } := by
+  rw [step_peer c hc]
+  exact ⟨rfl, rfl, rfl⟩
+
+/-- a connected client with two QoS 2 publishes (ids 7, 8) and one QoS 1 publish (id 9) in flight -/
+def demoA : C :=
+  runState init
+    [.connect (.connack false 0),
+     .api (.publish { qos := 2, topic := [97, 47, 98], pktid := 7, payload := [1] } 1),
+     .api (.publish { qos := 2, topic := [97], pktid := 8, payload := [2, 3] } 2),
+     .api (.publish { qos := 1, topic := [98], pktid := 9, payload := [] } 3)]
+
+example : demoA.connected = true ∧ demoA.pub2out.map (·.id) = [7, 8] ∧ demoA.pub1ack.map (·.id) = [9] ∧
+    (step demoA (.peer (.pubrec 8))).2 = [.wrote (.pubrel 8)] ∧
+    (step demoA (.peer (.pubrec 55))).2 = [.wrote (.pubrel 55)] ∧
+    (step demoA (.peer (.pubrec 8))).1.pub2out.map (fun r => (r.id, r.state)) = [(7, 0), (8, 5)] := by
+  decide
+
+/-! ## (b) QoS 0 publishes complete as soon as they are queued -/
+
+/-- A QoS 0 publish of a connected client writes the PUBLISH (identifier field
+0) and fires its completion - without error, exactly once, in the same step,
+after the write; no queue, nor anything else of the state, changes. -/
+theorem C12_qos0_completes_at_once (c : C) (hc : c.connected = true) (p : Pub) (tag : Nat)
+    (hq : p.qos = 0) :
+    (step c (.api (.publish p tag))).1 = c ∧
+    (step c (.api (.publish p tag))).2 =
+      .wrote (.publish { p with pktid := 0 }) :: (if tag = 0 then [] else [.complete tag false]) := by
+  rw [step_api c hc]
+  simp only [apiWrite, hq, BEq.rfl, ↓reduceIte, apiRegister, completeOut, List.singleton_append, true_and]
+  by_cases ht : tag = 0 <;> simp [ht]
+
+example :
+    (step demoA (.api (.publish { qos := 0, retain := true, topic := [97, 47, 98], pktid := 44, payload := [9] } 5))).2 =
+      [.wrote (.publish { qos := 0, retain := true, topic := [97, 47, 98], pktid := 0, payload := [9] }),
+       .complete 5 false] ∧
+    (step demoA (.api (.publish { qos := 0, topic := [97], payload := [] } 0))).2 =
+      [.wrote (.publish { qos := 0, topic := [97], payload := [] })] := by
+  decide
+
+/-! ## (c) completions: exactly once, in FIFO order, never early, no later than permitted
+
+The four identified ack queues of the client (`Kind`: QoS 1 publishes, QoS 2
+publishes, subscribes, unsubscribes; `queue k c`) are FIFO lists.
+`accepted k c evs` are the requests the history `evs` puts in flight in queue
+`k` (a registration under an identifier that is already in flight there is
+ignored by `Wait`), `released k c evs` the requests handed back to their
+completion wrappers, `fired k c evs` the tags of the completion callbacks the
+model actually invokes while it processes terminal acknowledgements of kind
+`k`; `key` is everything that is fixed when a request is registered
+(identifier, completion tag, message, filters, message callback). -/
+
+/-- **Conservation, every history** (the ack-before-registration interleaving
+included): what was handed back so far followed by what is still in flight is
+what was in flight initially followed by what was accepted, in order.  So no
+request is handed back twice, none is invented, and requests are handed back
+in registration order. -/
+theorem C12_queue_conservation (k : Kind) (c : C) (evs : List Ev) :
+    (released k c evs ++ queue k (runState c evs)).map key = (queue k c ++ accepted k c evs).map key :=
+  run_conservation k c evs
+
+/-- **C12, exactly-once FIFO completion.**  For every state of a connected
+client and every history of API calls and packets from the peer without the
+ack-before-registration interleaving, in which every acknowledged request
+carries an identifier supplied by the caller that is non-zero and not in
+flight in its queue (`Fresh`): the completion tags fired for kind `k`, followed
+by the tags of the requests still in queue `k`, are the tags that were in the
+queue initially followed by the tags of the requests of kind `k` the caller
+made, in call order (tag 0 = no callback).  Hence every completion callback
+fires at most once, in the order of the calls, and none fires that was not
+requested. -/
+theorem C12_exactly_once_fifo (k : Kind) (c : C) (evs : List Ev) (hc : c.connected = true)
+    (he : noEarly evs = true) (hf : Fresh c evs = true) :
+    fired k c evs ++ nz ((queue k (runState c evs)).map (·.tag)) =
+      nz ((queue k c).map (·.tag)) ++ nz (requestedTags k evs) := by
+  rw [run_conservation_tags k c evs he, accepted_fresh k c evs hc he hf]
+
+/-- **When a completion fires** (never early, no later than permitted).  While a
+connected client processes the terminal acknowledgement of kind `k` bearing
+identifier `id`, it fires exactly the completions of the longest prefix of
+queue `k` in which every request either had received its own terminal
+acknowledgement before or is the request acknowledged now - in order, each
+once.  Nothing else fires in that step. -/
+theorem C12_completion_timing (k : Kind) (c : C) (hc : c.connected = true) (p : Packet) (id : Nat)
+    (h : termId k p = some id) :
+    doneTags (step c (.peer p)).2 =
+      nz (((queue k c).takeWhile (fun e => terminal e.state || e.id == id)).map (·.tag)) :=
+  peer_doneTags_char k c hc p id h
+
+/-- … in particular, no later than permitted: a request whose predecessors in
+its queue are all terminal (or acknowledged by this very packet) and which is
+itself terminal or acknowledged now, completes in this step, after its
+predecessors. -/
+theorem C12_completion_no_later (k : Kind) (c : C) (hc : c.connected = true) (p : Packet) (id : Nat)
+    (h : termId k p = some id) (pre post : List Req) (r : Req) (hq : queue k c = pre ++ r :: post)
+    (hpre : ∀ e ∈ pre, terminal e.state = true ∨ e.id = id) (hr : terminal r.state = true ∨ r.id = id) :
+    ∃ rest, doneTags (step c (.peer p)).2 = nz (pre.map (·.tag)) ++ nz [r.tag] ++ rest :=
+  peer_fires_no_later k c hc p id h pre post r hq hpre hr
+
+/-- … and never early: in every step of every history (early acknowledgements
+included) a request is in a terminal state only if it was so before the step
+or the step delivers the terminal acknowledgement of its kind bearing its own
+identifier; requests are registered non-terminal.  Together with
+`C12_completion_timing` (only terminal requests and the one acknowledged now
+are completed): no completion before the request's own terminal
+acknowledgement has arrived. -/
+theorem C12_terminal_only_by_own_ack (k : Kind) (c : C) (ev : Ev) (r : Req)
+    (hr : r ∈ queue k (step c ev).1) (ht : terminal r.state = true) :
+    (∃ r0 ∈ queue k c, key r0 = key r ∧ r0.state = r.state) ∨ evAck k ev = some r.id :=
+  step_terminal_origin k c ev r hr ht
+
+/-- Eagerness: in every state reached from a fresh client by any history the
+oldest request of every queue is not terminal - a completion is never held
+back once it is permitted. -/
+theorem C12_release_eager (evs : List Ev) (k : Kind) (e : Req)
+    (h : (queue k (runState init evs)).head? = some e) : terminal e.state = false :=
+  eager_run init evs eager_init k e h
+
+/-- … and eagerness is inductive: preserved by every step from every state that has it. -/
+theorem C12_release_eager_step (c : C) (ev : Ev) (h : Eager c) : Eager (step c ev).1 :=
+  eager_step c ev h
+
+/-- the tables the model takes from the regenerated facts are the protocol's:
+PUBACK, PUBCOMP, SUBACK, UNSUBACK (and PUBREL for the receiving side) end an
+exchange, PUBREC and "nothing yet" do not -/
+theorem C12_terminal_states :
+    terminal 4 = true ∧ terminal 7 = true ∧ terminal 9 = true ∧ terminal 11 = true ∧ terminal 6 = true ∧
+    terminal 5 = false ∧ terminal 0 = false := by decide
+
+/-- a history with out-of-order acknowledgements: three QoS 1 publishes (the third without a
+callback), a subscribe, a QoS 2 publish; PUBACK 2 arrives first and is held back, PUBACK 1
+releases both -/
+def demoC : List Ev :=
+  [.connect (.connack false 0),
+   .api (.publish { qos := 1, topic := [97], pktid := 1, payload := [1] } 11),
+   .api (.publish { qos := 1, topic := [97, 47, 98], pktid := 2, payload := [2] } 12),
+   .api (.publish { qos := 1, topic := [98], pktid := 3, payload := [] } 0),
+   .api (.subscribe 4 [([97, 47, 43], 1), ([98], 0)] 15 9),
+   .api (.publish { qos := 2, topic := [98], pktid := 5, payload := [7] } 16),
+   .peer (.puback 2),
+   .peer (.pubrec 5),
+   .peer (.puback 1),
+   .peer (.suback 4 [1, 0]),
+   .api (.publish { qos := 1, topic := [97], pktid := 1, payload := [3] } 17),
+   .peer (.pubcomp 5)]
+
+example :
+    (step init (.connect (.connack false 0))).1.connected = true ∧
+    noEarly demoC.tail = true ∧ Fresh (step init (.connect (.connack false 0))).1 demoC.tail = true ∧
+    runOuts init demoC =
+      [[.connected],
+       [.wrote (.publish { qos := 1, topic := [97], pktid := 1, payload := [1] })],
+       [.wrote (.publish { qos := 1, topic := [97, 47, 98], pktid := 2, payload := [2] })],
+       [.wrote (.publish { qos := 1, topic := [98], pktid := 3, payload := [] })],
+       [.wrote (.subscribe 4 [([97, 47, 43], 1), ([98], 0)])],
+       [.wrote (.publish { qos := 2, topic := [98], pktid := 5, payload := [7] })],
+       [],
+       [.wrote (.pubrel 5)],
+       [.complete 11 false, .complete 12 false],
+       [.complete 15 false],
+       [.wrote (.publish { qos := 1, topic := [97], pktid := 1, payload := [3] })],
+       [.complete 16 false]] ∧
+    fired .pub1 init demoC = [11, 12] ∧ fired .sub init demoC = [15] ∧ fired .pub2 init demoC = [16] ∧
+    requestedTags .pub1 demoC = [11, 12, 0, 17] ∧
+    (queue .pub1 (runState init demoC)).map (fun r => (r.id, r.tag, r.state)) = [(3, 0, 0), (1, 17, 0)] := by
+  decide
+
+/-! ### the ping slot -/
+
+/-- **Pings, the part that holds**: in a history without early acknowledgements
+in which `Ping` is called only when no earlier ping is outstanding (`PingOk`),
+the ping completions fired, followed by the tag in the slot, are the tag
+initially in the slot followed by the tags of the `Ping` calls, in order. -/
+theorem C12_ping_exactly_once_partial (c : C) (evs : List Ev) (hc : c.connected = true)
+    (he : noEarly evs = true) (hp : PingOk c evs = true) :
+    pingFired c evs ++ nz (slotTags (runState c evs)) = nz (slotTags c) ++ nz (pingRequested evs) :=
+  run_ping_conservation c evs hc he hp
+
+/-- the statement without the restriction -/
+def C12_ping_exactly_once_full : Prop :=
+  ∀ (c : C) (evs : List Ev), c.connected = true → noEarly evs = true →
+    pingFired c evs ++ nz (slotTags (runState c evs)) = nz (slotTags c) ++ nz (pingRequested evs)
+
+/-- It is false of the code as it is (the single ping slot): a second `Ping`
+before the first PINGRESP overwrites the slot; of the two PINGRESPs that follow
+the first completes the *second* call and the second completes nothing - the
+completion of the first call is lost. -/
+theorem C12_ping_slot_counterexample : ¬ C12_ping_exactly_once_full ∧
+    runOuts demoA [.api (.ping 1), .api (.ping 2), .peer .pingresp, .peer .pingresp] =
+      [[.wrote .pingreq], [.wrote .pingreq], [.complete 2 false], []] := by
+  refine ⟨fun h => ?_, by decide⟩
+  have := h demoA [.api (.ping 1), .api (.ping 2), .peer .pingresp, .peer .pingresp] (by decide) (by decide)
+  exact absurd this (by decide)
+
+example : PingOk demoA [.api (.ping 1), .peer .pingresp, .api (.ping 2), .peer .pingreq, .peer .pingresp] = true ∧
+    runOuts demoA [.api (.ping 1), .peer .pingresp, .api (.ping 2), .peer .pingreq, .peer .pingresp] =
+      [[.wrote .pingreq], [.complete 1 false], [.wrote .pingreq], [.wrote .pingresp], [.complete 2 false]] := by
+  decide
+
+/-! ### the two interleavings of acknowledgement and return of the call -/
+
+/-- "This holds however the arrival of the acknowledgement interleaves with the
+return of the sending call": a request with a caller-supplied identifier and a
+completion callback, made while its queue is empty, completes when its terminal
+acknowledgement has been processed - whether the acknowledgement is processed
+after the call returned (`.api` then `.peer`) or between the write and the
+registration (`.apiEarlyAck`). -/
+def C12_completes_on_ack_full : Prop :=
+  ∀ (c : C) (call : Api) (k : Kind) (id tag : Nat) (ack : Packet),
+    c.connected = true → callReq call = some (k, id, tag) → id ≠ 0 → tag ≠ 0 → queue k c = [] →
+    termId k ack = some id →
+    doneTags (step (step c (.api call)).1 (.peer ack)).2 = [tag] ∧
+    doneTags (step c (.apiEarlyAck call ack)).2 = [tag]
+
+/-- The first interleaving holds. -/
+theorem C12_completes_on_ack_partial (c : C) (call : Api) (k : Kind) (id tag : Nat) (ack : Packet)
+    (hc : c.connected = true) (hreq : callReq call = some (k, id, tag)) (hid : id ≠ 0) (htag : tag ≠ 0)
+    (hq : queue k c = []) (ht : termId k ack = some id) :
+    doneTags (step (step c (.api call)).1 (.peer ack)).2 = [tag] := by
+  rw [completes_after_return c call k id tag ack hc hreq hid hq ht]
+  simp [nz, htag]
+
+/-- The second does not (finding E5): the acknowledgement processed between
+`writeMessage` and `Wait` finds no entry and is dropped; the request is
+registered afterwards and stays in its queue, non-terminal, and its completion
+never fires although its acknowledgement has arrived. -/
+theorem C12_early_ack_counterexample : ¬ C12_completes_on_ack_full ∧
+    (let ev := Ev.apiEarlyAck (.publish { qos := 1, topic := [97], pktid := 2, payload := [1] } 4) (.puback 2)
+     (step demoA ev).2 = [.wrote (.publish { qos := 1, topic := [97], pktid := 2, payload := [1] })] ∧
+     (queue .pub1 (step demoA ev).1).map (fun r => (r.id, r.tag, r.state)) = [(9, 3, 0), (2, 4, 0)]) := by
+  refine ⟨fun h => ?_, by decide⟩
+  have := (h (step init (.connect (.connack false 0))).1
+    (.publish { qos := 1, topic := [97], pktid := 2, payload := [1] } 4) .pub1 2 4 (.puback 2)
+    (by decide) (by decide) (by decide) (by decide) (by decide) (by decide)).2
+  exact absurd this (by decide)
+
+example :
+    let c := (step init (.connect (.connack false 0))).1
+    let call := Api.subscribe 7 [([97, 47, 35], 2)] 21 3
+    callReq call = some (.sub, 7, 21) ∧ termId .sub (.suback 7 [2]) = some 7 ∧
+      doneTags (step (step c (.api call)).1 (.peer (.suback 7 [2]))).2 = [21] := by
+  decide
+
+/-! ## (e) packet identifiers -/
+
+/-- Every QoS 1/2 PUBLISH, SUBSCRIBE and UNSUBSCRIBE a connected client writes
+(`callReq call = some (k, id, tag)`: `id` is the identifier the caller
+supplied, 0 = none) carries exactly one identifier, `assigned c id`: the
+caller's when it supplied one, otherwise the next value of the library's
+counter, `(ctr + 1) % 65536`; and the request is registered in its ack queue
+under that same identifier. -/
+theorem C12_written_identifier (c : C) (hc : c.connected = true) (call : Api) (k : Kind) (id tag : Nat)
+    (h : callReq call = some (k, id, tag)) :
+    (step c (.api call)).2.filterMap writtenId = [assigned c id] ∧
+    (∀ r ∈ stepAccepted k c (.api call), r.id = assigned c id) ∧
+    (id ≠ 0 → assigned c id = id) ∧ (id = 0 → assigned c id = (c.ctr + 1) % 65536) := by
+  refine ⟨(step_api_written c hc call k id tag h).1, (step_api_written c hc call k id tag h).2, ?_, ?_⟩
+  · intro hne; simp [assigned, hne]
+  · intro h0; simp [assigned, h0]
+
+/-- The written identifier is non-zero exactly when the caller supplied one or
+the counter is not at 65535 (mod 65536). -/
+theorem C12_identifier_nonzero_iff (c : C) (id : Nat) :
+    assigned c id ≠ 0 ↔ id ≠ 0 ∨ c.ctr % 65536 ≠ 65535 :=
+  assigned_ne_zero_iff c id
+
+/-- the statement of the property: every identifier written is non-zero -/
+def C12_identifier_nonzero_full : Prop :=
+  ∀ (c : C) (call : Api) (k : Kind) (id tag : Nat), c.connected = true → callReq call = some (k, id, tag) →
+    ∀ i ∈ (step c (.api call)).2.filterMap writtenId, i ≠ 0
+
+/-- the part that holds of the code as modelled -/
+theorem C12_identifier_nonzero_partial (c : C) (call : Api) (k : Kind) (id tag : Nat) (hc : c.connected = true)
+    (h : callReq call = some (k, id, tag)) (hok : id ≠ 0 ∨ c.ctr % 65536 ≠ 65535) :
+    ∀ i ∈ (step c (.api call)).2.filterMap writtenId, i ≠ 0 := by
+  intro i hi
+  rw [(step_api_written c hc call k id tag h).1] at hi
+  have : i = assigned c id := by simpa using hi
+  rw [this]
+  exact (assigned_ne_zero_iff c id).mpr hok
+
+/-- It is false (defect A2, `message.gPacketID` wraps to 0): with the counter at
+65535 a QoS 1 publish without a caller-supplied identifier is written with
+packet identifier 0 and registered under 0. -/
+theorem C12_identifier_zero_counterexample : ¬ C12_identifier_nonzero_full ∧
+    (let c : C := { demoA with ctr := 65535 }
+     (step c (.api (.publish { qos := 1, topic := [97], payload := [1] } 4))).2 =
+       [.wrote (.publish { qos := 1, topic := [97], pktid := 0, payload := [1] })] ∧
+     (step c (.api (.publish { qos := 1, topic := [97], payload := [1] } 4))).1.pub1ack.map (·.id) = [9, 0]) := by
+  refine ⟨fun h => ?_, by decide⟩
+  exact h { demoA with ctr := 65535 } (.publish { qos := 1, topic := [97], payload := [1] } 4) .pub1 0 4
+    (by decide) (by decide) 0 (by decide) rfl
+
+/-- auto-assigned identifiers away from the wrap: three requests without identifiers get 1, 2, 3 -/
+example : runOuts (step init (.connect (.connack false 0))).1
+    [.api (.publish { qos := 1, topic := [97], payload := [1] } 1),
+     .api (.subscribe 0 [([97], 0)] 2 7),
+     .api (.unsubscribe 0 [[97]] 3),
+     .api (.publish { qos := 2, topic := [97], pktid := 77, payload := [1] } 4)] =
+    [[.wrote (.publish { qos := 1, topic := [97], pktid := 1, payload := [1] })],
+     [.wrote (.subscribe 2 [([97], 0)])],
+     [.wrote (.unsubscribe 3 [[97]])],
+     [.wrote (.publish { qos := 2, topic := [97], pktid := 77, payload := [1] })]] := by
+  decide
+
+/-- **Identifiers in flight are pairwise distinct**, in every state reached from
+a fresh client by any history (early acknowledgements, repeated identifiers
+and identifier 0 included): within each ack queue no two requests bear the
+same identifier - `Wait` ignores a registration under an identifier that is in
+flight. -/
+theorem C12_inflight_ids_distinct (evs : List Ev) (k : Kind) :
+    ((queue k (runState init evs)).map (·.id)).Nodup :=
+  idsNodup_run init evs idsNodup_init k
+
+/-- … and the invariant is inductive: preserved by every step from every state that has it. -/
+theorem C12_inflight_ids_distinct_step (c : C) (ev : Ev) (h : IdsNodup c) : IdsNodup (step c ev).1 :=
+  idsNodup_step c ev h
+
+/-- **Identifiers in flight are non-zero** in every state reached by a history
+in which every call either supplies its identifier or meets the counter away
+from the wrap (`IdOk`; the excluded case is `C12_identifier_zero_counterexample`). -/
+theorem C12_inflight_ids_nonzero_partial (evs : List Ev) (hok : IdOk init evs = true) (k : Kind) :
+    ∀ e ∈ queue k (runState init evs), e.id ≠ 0 :=
+  idsNonzero_run init evs idsNonzero_init hok k
+
+example : IdOk init demoC = true ∧ (queue .pub1 (runState init demoC)).map (·.id) = [3, 1] := by decide
+
+/-! ## (d) refinement: the code-shaped model against the reference client
+
+`Spec.Client.step` is the reference client written from MQTT 3.1.1 and the
+property texts.  `RunMatch sos mos`: event by event the model's outputs `mos`
+agree with the specification's `sos` after the canonical projection of the
+driver (`EvMatch`: packets written and completions in order, literally -
+except that a delivered message fixes callback, topic and payload only, and
+`completeAny` leaves the error value open -, message callbacks as a multiset).
+`Ok s evs` (decidable, evaluated along the *specification's* run) admits a
+history iff every event is inside the recorded exclusions:
+
+* no `.apiEarlyAck` (E5);
+* `Ping` only while no ping is outstanding (the single ping slot);
+* at every dispatch no callback is held under two different filters that both
+  match the delivered topic (`E9free`, E9);
+* filters and delivered topic names without empty and without `$`-led levels
+  (`good`, B3/B4), delivered names valid, QoS <= 2;
+* QoS 1/2 publishes, subscribes, unsubscribes carry a caller-supplied non-zero
+  identifier (the reference client cannot track library-assigned ones);
+* and the peer keeps to the protocol where the property is silent: SUBACK
+  return codes in {0, 1, 2, 0x80}, no PUBREC for an exchange whose PUBCOMP was
+  already processed, filters of one Subscribe valid and pairwise different
+  (see NOTES-bp4.md: outside these the two sides differ, counterexamples below). -/
+
+/-- **C12/C20, refinement (the part that holds).**  For every admitted history
+from a fresh client the model's outputs agree with the reference client's,
+event by event, and the two end in related states. -/
+theorem C12_refines_spec_partial (evs : List Ev) (hok : Ok {} evs = true) :
+    RunMatch (specOuts {} evs) (runOuts init evs) ∧
+    R (runState init evs) (evs.foldl (fun s ev => (Mqtt.Spec.Client.step s ev).1) {}) :=
+  run_sim evs init {} R_init hok
+
+/-- … and from every pair of related states (the relation is inductive). -/
+theorem C12_refines_spec_step (c : C) (s : Mqtt.Spec.Client.S) (hR : R c s) (ev : Ev) (hok : okStep s ev = true) :
+    R (step c ev).1 (Mqtt.Spec.Client.step s ev).1 ∧ EvMatch (Mqtt.Spec.Client.step s ev).2 (step c ev).2 :=
+  step_sim c s hR ev hok
+
+/-- the statement without the exclusions -/
+def C12_refines_spec_full : Prop := ∀ evs : List Ev, RunMatch (specOuts {} evs) (runOuts init evs)
+
+/-- non-vacuity: an admitted history exercising every kind of event - out-of-order PUBACKs, a QoS 2
+publish with PUBREC/PUBCOMP, subscribe with a refused filter, inbound QoS 0/1/2 with a duplicate,
+unsubscribe, ping -/
+def demoD : List Ev :=
+  [.connect (.connack true 0),
+   .api (.publish { qos := 1, topic := [97], pktid := 1, payload := [1] } 11),
+   .api (.publish { qos := 1, topic := [97, 47, 98], pktid := 2, payload := [2] } 12),
+   .api (.subscribe 3 [([97, 47, 43], 1), ([98], 2), ([99, 47, 35], 0)] 13 9),
+   .api (.publish { qos := 2, topic := [98], pktid := 4, payload := [7] } 14),
+   .api (.publish { qos := 0, topic := [98], payload := [8] } 15),
+   .peer (.puback 2),
+   .peer (.pubrec 4),
+   .peer (.puback 1),
+   .peer (.suback 3 [1, 2, 128]),
+   .peer (.publish { qos := 1, topic := [97, 47, 98], pktid := 100, payload := [1] }),
+   .peer (.publish { qos := 2, topic := [98], pktid := 101, payload := [2] }),
+   .peer (.publish { dup := true, qos := 2, topic := [98], pktid := 101, payload := [2] }),
+   .peer (.publish { qos := 0, topic := [99, 47, 100], payload := [3] }),
+   .peer (.pubrel 101),
+   .peer (.pubcomp 4),
+   .api (.unsubscribe 5 [[98], [98]] 16),
+   .api (.ping 17),
+   .peer (.unsuback 5),
+   .peer (.publish { qos := 0, topic := [98], payload := [4] }),
+   .peer .pingresp,
+   .peer .pingreq]
+
+example : Ok {} demoD = true := by decide
+
+example : (runOuts init demoD).drop 8 =
+    [[.complete 11 false, .complete 12 false],
+     [.complete 13 true],
+     [.wrote (.puback 100), .deliver 9 { qos := 1, topic := [97, 47, 98], pktid := 100, payload := [1] }],
+     [.wrote (.pubrec 101)], [.wrote (.pubrec 101)],
+     [],
+     [.deliver 9 { qos := 2, topic := [98], pktid := 101, payload := [2] }, .wrote (.pubcomp 101)],
+     [.complete 14 false],
+     [.wrote (.unsubscribe 5 [[98]])],
+     [.wrote .pingreq],
+     [.complete 16 false],
+     [],
+     [.complete 17 false],
+     [.wrote .pingresp]] := by decide
+
+example : RunMatch (specOuts {} demoD) (runOuts init demoD) := (C12_refines_spec_partial demoD (by decide)).1
+
+/-- E5 is needed: with the acknowledgement processed between write and registration the
+reference client completes the request, the model never does. -/
+theorem C12_refines_spec_E5_counterexample :
+    ¬ RunMatch (specOuts {} [.connect (.connack false 0),
+        .apiEarlyAck (.publish { qos := 1, topic := [97], pktid := 2, payload := [1] } 4) (.puback 2)])
+      (runOuts init [.connect (.connack false 0),
+        .apiEarlyAck (.publish { qos := 1, topic := [97], pktid := 2, payload := [1] } 4) (.puback 2)]) := by
+  intro h
+  exact absurd (runMatchB_of h) (by decide)
+
+/-- The ping hypothesis is needed: the reference client completes both pings in order, the model
+loses the first. -/
+theorem C12_refines_spec_ping_counterexample :
+    Ok {} [.connect (.connack false 0), .api (.ping 1)] = true ∧
+    ¬ RunMatch (specOuts {} [.connect (.connack false 0), .api (.ping 1), .api (.ping 2), .peer .pingresp, .peer .pingresp])
+      (runOuts init [.connect (.connack false 0), .api (.ping 1), .api (.ping 2), .peer .pingresp, .peer .pingresp]) := by
+  refine ⟨by decide, fun h => ?_⟩
+  exact absurd (runMatchB_of h) (by decide)
+
+/-- E9 is needed: a request with the overlapping filters `a/+`, `a/b`; one delivered `a/b` invokes
+the callback once in the reference client, twice in the model.  Everything before the delivery is
+admitted. -/
+theorem C12_refines_spec_E9_counterexample :
+    Ok {} [.connect (.connack false 0), .api (.subscribe 1 [([97, 47, 43], 1), ([97, 47, 98], 1)] 5 9),
+      .peer (.suback 1 [1, 1])] = true ∧
+    ¬ RunMatch (specOuts {} [.connect (.connack false 0), .api (.subscribe 1 [([97, 47, 43], 1), ([97, 47, 98], 1)] 5 9),
+        .peer (.suback 1 [1, 1]), .peer (.publish { qos := 0, topic := [97, 47, 98], payload := [7] })])
+      (runOuts init [.connect (.connack false 0), .api (.subscribe 1 [([97, 47, 43], 1), ([97, 47, 98], 1)] 5 9),
+        .peer (.suback 1 [1, 1]), .peer (.publish { qos := 0, topic := [97, 47, 98], payload := [7] })]) := by
+  refine ⟨by decide, fun h => ?_⟩
+  exact absurd (runMatchB_of h) (by decide)
+
+/-- B3 (`good`) is needed: the filter `/a` receives `x/a` in the model, not in the reference client. -/
+theorem C12_refines_spec_B3_counterexample :
+    ¬ RunMatch (specOuts {} [.connect (.connack false 0), .api (.subscribe 1 [([47, 97], 1)] 5 9),
+        .peer (.suback 1 [1]), .peer (.publish { qos := 0, topic := [120, 47, 97], payload := [1] })])
+      (runOuts init [.connect (.connack false 0), .api (.subscribe 1 [([47, 97], 1)] 5 9),
+        .peer (.suback 1 [1]), .peer (.publish { qos := 0, topic := [120, 47, 97], payload := [1] })]) := by
+  intro h
+  exact absurd (runMatchB_of h) (by decide)
+
+/-- A PUBREC arriving after the PUBCOMP of the same (still queued) exchange reverts the request to
+non-terminal in the model (Core C "state regression", modelled as the code has it); the reference
+client keeps it completed. -/
+theorem C12_refines_spec_late_pubrec_counterexample :
+    ¬ RunMatch (specOuts {} [.connect (.connack false 0),
+        .api (.publish { qos := 2, topic := [97], pktid := 1, payload := [] } 1),
+        .api (.publish { qos := 2, topic := [97], pktid := 2, payload := [] } 2),
+        .peer (.pubcomp 2), .peer (.pubrec 2), .peer (.pubcomp 1)])
+      (runOuts init [.connect (.connack false 0),
+        .api (.publish { qos := 2, topic := [97], pktid := 1, payload := [] } 1),
+        .api (.publish { qos := 2, topic := [97], pktid := 2, payload := [] } 2),
+        .peer (.pubcomp 2), .peer (.pubrec 2), .peer (.pubcomp 1)]) := by
+  intro h
+  exact absurd (runMatchB_of h) (by decide)
+
+/-- A SUBACK return code outside {0, 1, 2, 0x80} (here 3): the model reports an error to the
+completion and installs nothing, the reference client reports success and holds the filter. -/
+theorem C12_refines_spec_suback_code_counterexample :
+    ¬ RunMatch (specOuts {} [.connect (.connack false 0), .api (.subscribe 1 [([97], 1)] 5 9), .peer (.suback 1 [3])])
+      (runOuts init [.connect (.connack false 0), .api (.subscribe 1 [([97], 1)] 5 9), .peer (.suback 1 [3])]) := by
+  intro h
+  exact absurd (runMatchB_of h) (by decide)
+
+/-- A library-assigned identifier: the reference client registers such a request under 0 and never
+completes it, the model (and the code) complete it. -/
+theorem C12_refines_spec_auto_id_counterexample :
+    ¬ RunMatch (specOuts {} [.connect (.connack false 0),
+        .api (.publish { qos := 1, topic := [97], payload := [] } 1), .peer (.puback 1)])
+      (runOuts init [.connect (.connack false 0),
+        .api (.publish { qos := 1, topic := [97], payload := [] } 1), .peer (.puback 1)]) := by
+  intro h
+  exact absurd (runMatchB_of h) (by decide)
+
+theorem C12_refines_spec_full_counterexample : ¬ C12_refines_spec_full :=
+  fun h => C12_refines_spec_E5_counterexample (h _)
+
 end Mqtt.Properties.C12
